@@ -932,4 +932,489 @@ Section LNDProofs.
     - eapply QI_weaken; [|exact HQ]. intros sp H. apply in_app_iff in H as [H|H]; apply in_app_iff; [left; apply Hd1|right]; auto.
     - intros sp H. apply Hd1 in H. exact (Hfr sp H).
   Qed.
+
+  (* (d) the [tri] property *)
+  Lemma touch_QS X E s : QS X s -> l_err (touch E s) = None -> QS X (touch E s).
+  Proof.
+    intros HQ He. unfold LND.touch in *. destruct (failed s) eqn:Ef; auto.
+    destruct (l_tri s) as [t0|] eqn:Et; auto.
+    destruct (l_tris s) as [|[ss|] r] eqn:Er; [auto| |].
+    - destruct (wf_simplices (length (l_data s)) ss) eqn:Ew; cbn [negb] in *; [|discriminate].
+      set (t := init (l_data s) ss) in *.
+      set (s0 := set_tri (set_tris s r) (Some t)) in *.
+      destruct (updl_spec E s0 [] (simplices t)) as (A1 & _). cbv zeta in A1.
+      unfold QS in *. rewrite A1. cbn [l_tri s0 set_tri]. rewrite Et in HQ. destruct HQ as [Hq Hs].
+      pose proof (wf_simplices_spec _ _ Ew) as Hw.
+      apply updl_QI; auto.
+      + apply init_Inv. exact Hw.
+      + cbn [fold_left]. constructor; cbn [l_queue l_subs l_losses set_subs set_losses s0 set_tri set_tris]; rewrite ?Hq, ?Hs.
+        * constructor.
+        * intros sp H1 H2. exfalso. apply H2. apply in_app_iff. auto.
+        * intros l0 sp [].
+        * intros l0 sp u v [].
+        * intros sp [].
+      + intros sp _ l0 u. cbn [l_queue s0 set_tri set_tris]. rewrite Hq. intros [].
+    - unfold QS in *. cbn [l_tri set_tris]. rewrite Et in *. exact HQ.
+  Qed.
+
+  (* (e) _recompute_all_losses *)
+  Record RI E (done : list simplex) s t (subs0 : list (simplex * tri nat)) : Prop := {
+    ri_sorted : qsorted (l_queue s);
+    ri_live : forall loss sp u, In (loss, sp, u) (l_queue s) -> In sp (simplices t);
+    ri_none : forall loss sp, In (loss, sp, None) (l_queue s) -> loss = e_loss E sp /\ In sp done;
+    ri_loss : forall sp, In sp done -> sassoc sp (l_losses s) = Some (e_loss E sp);
+    ri_q1 : forall sp, In sp done -> shas sp subs0 = false -> In (e_loss E sp, sp, None) (l_queue s);
+    ri_subs : l_subs s = subs0
+  }.
+
+  Lemma recone_RI E done s sp t subs0 :
+    Inv t -> In sp (simplices t) -> RI E done s t subs0 -> l_err (recone E s sp) = None ->
+    RI E (sp :: done) (recone E s sp) t subs0.
+  Proof.
+    intros HI Hsp [A B C D F G] He. unfold recompute_one in *. destruct (failed s) eqn:Ef.
+    { apply failed_err in He. congruence. }
+    cbn [l_subs set_losses] in *.
+    assert (HD : forall sp0, In sp0 (sp :: done) ->
+              sassoc sp0 (sset sp (e_loss E sp) (l_losses s)) = Some (e_loss E sp0)).
+    { intros sp0 H0. destruct (In_dec_s sp0 [sp]) as [[<-|[]]|Hne]; [apply sassoc_sset_same|].
+      rewrite sassoc_sset_other; [|intros ->; apply Hne; left; auto]. apply D. destruct H0 as [<-|H0]; auto.
+      exfalso. apply Hne. left; auto. }
+    destruct (sassoc sp (l_subs s)) as [st|] eqn:Es.
+    - set (s1 := set_losses s (sset sp (e_loss E sp) (l_losses s))) in *.
+      pose proof (usl_keeps E s1 sp (simplices st)) as (_ & K2 & _).
+      constructor.
+      + unfold update_subsimplex_losses. destruct (sassoc sp (l_losses s1)); [|exact A].
+        cbn [l_queue set_queue]. apply (fold_queue_add_sorted rnd (fun u => (_, sp, Some u))). exact A.
+      + intros l0 sp0 u0 Hin. apply usl_queue_In in Hin as [Hin|[-> _]]; eauto.
+      + intros l0 sp0 Hin. apply usl_queue_In in Hin as [Hin|[_ Hc]]; [|congruence].
+        destruct (C _ _ Hin). split; auto. right; auto.
+      + intros sp0 H0. rewrite K2. apply HD. exact H0.
+      + intros sp0 H0 H1. destruct H0 as [<-|H0].
+        * rewrite <- G in H1. unfold shas in H1. rewrite Es in H1. discriminate.
+        * unfold update_subsimplex_losses. destruct (sassoc sp (l_losses s1)); [|apply F; auto].
+          cbn [l_queue set_queue]. apply (fold_queue_add_In rnd (fun u => (_, sp, Some u))). left. apply F; auto.
+      + rewrite usl_subs. exact G.
+    - constructor; cbn [l_queue l_losses l_subs set_queue set_losses].
+      + apply queue_add_sorted. exact A.
+      + intros l0 sp0 u0 Hin. apply queue_add_In in Hin as [Hin|Hin]; [inversion Hin; subst; auto|eauto].
+      + intros l0 sp0 Hin. apply queue_add_In in Hin as [Hin|Hin].
+        * inversion Hin; subst. split; auto. left; auto.
+        * destruct (C _ _ Hin). split; auto. right; auto.
+      + exact HD.
+      + intros sp0 H0 H1. apply queue_add_In. destruct H0 as [<-|H0]; auto.
+      + exact G.
+  Qed.
+
+  Lemma fold_recone_RI E t subs0 : Inv t -> forall l done s,
+    (forall sp, In sp l -> In sp (simplices t)) -> RI E done s t subs0 ->
+    l_err (fold_left (recone E) l s) = None ->
+    RI E (rev l ++ done) (fold_left (recone E) l s) t subs0.
+  Proof.
+    intros HI. induction l as [|sp l IH]; intros done s Hl HR He; cbn [fold_left rev app] in *; auto.
+    assert (He1 : l_err (recone E s sp) = None).
+    { destruct (fold_recone_spec E l (recone E s sp)) as (_ & _ & _ & _ & A). cbv zeta in A. apply A; auto. }
+    rewrite <- app_assoc. cbn [app]. apply IH; auto.
+    - intros sp0 H0. apply Hl. right; auto.
+    - apply recone_RI; auto. apply Hl. left; auto.
+  Qed.
+
+  Lemma recall_QS X E s dl : QS X s -> (l_tri s = None -> dl = l_data s) -> PG dl s ->
+    l_err (recall E s) = None -> QS X (recall E s).
+  Proof.
+    intros HQ Hd HP He. unfold recompute_all in *.
+    assert (Het : l_err (touch E s) = None).
+    { destruct (l_tri (touch E s)) as [t|]; auto.
+      destruct (fold_recone_spec E (simplices t) (set_queue (touch E s) [])) as (_ & _ & _ & _ & A). cbv zeta in A.
+      apply A in He. tauto. }
+    pose proof (touch_QS X E s HQ Het) as HQ1.
+    pose proof (touch_PG dl s E Het Hd HP) as HP1.
+    destruct (l_tri (touch E s)) as [t|] eqn:Et; auto.
+    unfold PG in HP1. rewrite Et in HP1. destruct HP1 as (HI & _ & _).
+    unfold QS in HQ1. rewrite Et in HQ1.
+    destruct (fold_recone_spec E (simplices t) (set_queue (touch E s) [])) as (A1 & _). cbv zeta in A1.
+    unfold QS. rewrite A1. cbn [l_tri set_queue]. rewrite Et.
+    pose proof (fold_recone_RI E t (l_subs (touch E s)) HI (simplices t) [] (set_queue (touch E s) [])) as HR.
+    rewrite app_nil_r in HR. destruct HR as [A B C D F G]; auto.
+    { constructor; cbn [l_queue l_subs l_losses set_queue]; auto; try constructor;
+        intros; cbn [In] in *; tauto. }
+    constructor; auto.
+    - intros sp H1 H2 H3. exists (e_loss E sp). rewrite G in H3. split; [apply D|apply F]; auto; apply in_rev; rewrite rev_involutive; auto.
+    - intros l0 sp Hin Hs. destruct (C _ _ Hin) as [-> Hd0]. apply D. exact Hd0.
+    - intros l0 sp u v Hin Hv. eapply (inv_range _ _ HI); eauto.
+    - rewrite G. apply (qi_q5 HQ1).
+  Qed.
+
+  (* (f) tell_pending *)
+  Lemma tellp_loop_QI X E p t : Inv t -> forall nbs s,
+    (forall sp, In sp nbs -> In sp (simplices t)) -> QI X s t ->
+    QI X (fold_left (fun a sp => let '(a', r) := tryadd E a p sp in
+                                 match r with Some add => usl E a' sp add | None => a' end) nbs s) t.
+  Proof.
+    intros HI. induction nbs as [|sp nbs IH]; intros s Hn HQ; cbn [fold_left]; auto.
+    apply IH; [intros sp0 H0; apply Hn; right; auto|].
+    pose proof (tryadd_QI X E s p sp t (Hn sp (or_introl eq_refl)) HQ) as H1.
+    destruct (tryadd E s p sp) as [a' r]. cbn [fst] in H1.
+    destruct r; auto. apply usl_QI; auto. apply Hn. left; auto.
+  Qed.
+
+  Lemma dedup_In l x : In x (dedup l) <-> In x l.
+  Proof. destruct (dedup_spec l) as [H _]. apply H. Qed.
+
+  Lemma tellp_QS X E s p hint : QS X s -> P s -> l_err (tellp E s p hint) = None -> QS X (tellp E s p hint).
+  Proof.
+    intros HQ HP He. unfold tell_pending in *. destruct (failed s) eqn:Ef; auto.
+    destruct (e_inb E p); cbn [negb] in *; auto.
+    set (s0 := set_pend s (nat_insert p (l_pend s))) in *.
+    assert (HQ0 : QS X s0).
+    { unfold QS in *. cbn [l_tri s0 set_pend]. destruct (l_tri s); auto. eapply QI_ext; [| | |exact HQ]; reflexivity. }
+    assert (HP0 : P s0) by exact HP.
+    assert (Het : l_err (touch E s0) = None).
+    { destruct (l_tri (touch E s0)) as [t|]; auto.
+      destruct (match hint with Some h => h | None => e_locate E p end); auto.
+      match type of He with l_err (fold_left ?f ?l ?a) = None => pose proof (tellp_loop_keeps E p l a) as K end.
+      destruct K as (_ & _ & _ & _ & _ & K6). auto. }
+    pose proof (touch_QS X E s0 HQ0 Het) as HQ1.
+    destruct (touch_post s0 E) as (_ & _ & A3). destruct (A3 Het) as [_ HP1]. specialize (HP1 HP0).
+    destruct (l_tri (touch E s0)) as [t|] eqn:Et; auto.
+    destruct (match hint with Some h => h | None => e_locate E p end) as [|v0 sx] eqn:Eh; auto.
+    unfold P, PG in HP1. rewrite Et in HP1. destruct HP1 as (HI & _ & _).
+    match goal with |- QS X (fold_left ?f ?l ?a) => pose proof (tellp_loop_keeps E p l a) as K end.
+    destruct K as (K1 & _). unfold QS. rewrite K1, Et. unfold QS in HQ1. rewrite Et in HQ1.
+    apply tellp_loop_QI; auto.
+    intros sp Hsp. apply (proj1 (dedup_In _ _)) in Hsp. apply in_flat_map in Hsp as [i [_ Hsp]].
+    apply (inv_index _ _ HI) in Hsp. tauto.
+  Qed.
+
+  Lemma QS_ext X s s' : l_tri s' = l_tri s -> l_queue s' = l_queue s -> l_subs s' = l_subs s ->
+    l_losses s' = l_losses s -> QS X s -> QS X s'.
+  Proof.
+    intros H0 H1 H2 H3 H. unfold QS in *. rewrite H0. destruct (l_tri s); [eapply QI_ext; eauto|].
+    rewrite H1, H2. exact H.
+  Qed.
+
+  (* (g) ask *)
+  Lemma pop_spec s : forall q e q', pop_highest s q = Some (e, q') ->
+    exists pre, q = pre ++ e :: q' /\ valid_entry s e = true /\ forall x, In x pre -> valid_entry s x = false.
+  Proof.
+    induction q as [|x q IH]; intros e q' H; cbn [pop_highest] in H; [discriminate|].
+    destruct (valid_entry s x) eqn:Ev.
+    - inversion H; subst. exists []. repeat split; auto. intros y [].
+    - destruct (IH _ _ H) as (pre & -> & H1 & H2). exists (x :: pre). repeat split; auto.
+      intros y [<-|Hy]; auto.
+  Qed.
+
+  Lemma pop_none s : forall q, pop_highest s q = None -> forall x, In x q -> valid_entry s x = false.
+  Proof.
+    induction q as [|y q IH]; intros H x Hx; cbn [pop_highest In] in *; [tauto|].
+    destruct (valid_entry s y) eqn:Ev; [discriminate|]. destruct Hx as [<-|Hx]; auto.
+  Qed.
+
+  Lemma askone_QS E s : QS [] s -> P s ->
+    l_err (fst (askone E s)) = None -> l_ok (fst (askone E s)) = true -> QS [] (fst (askone E s)).
+  Proof.
+    intros HQ HP. unfold ask_one. destruct (failed s) eqn:Ef; [auto|].
+    destruct (free_corners corners s) as [|c fc].
+    2:{ cbn [fst]. intros He _. apply tellp_QS; auto. }
+    destruct (touch_post s E) as (_ & _ & T3).
+    destruct (l_tri (touch E s)) as [t|] eqn:Et.
+    - destruct (pop_highest (touch E s) (l_queue (touch E s))) as [[[[loss sp] u] q']|] eqn:Epop.
+      2:{ cbn [fst]. intros He. discriminate. }
+      unfold next_choice. cbn [l_choose set_queue].
+      destruct (l_choose (touch E s)) as [|p r].
+      { cbn [fst failed l_err set_err]. intros He. discriminate. }
+      set (s1 := set_choose (set_queue (touch E s) q') r).
+      destruct (failed s1) eqn:Ef1.
+      { cbn [fst]. intros He. apply failed_err in He. congruence. }
+      assert (Het : l_err (touch E s) = None) by (apply failed_err in Ef1; exact Ef1).
+      destruct (T3 Het) as [_ HP1]. specialize (HP1 HP).
+      pose proof (touch_QS [] E s HQ Het) as HQ1. unfold QS in HQ1. rewrite Et in HQ1.
+      destruct (pop_spec _ _ _ _ Epop) as (pre & Hq & Hv & Hpre).
+      set (X1 := match u with None => [sp] | Some _ => [] end).
+      assert (HQ2 : QS X1 s1).
+      { unfold QS. cbn [l_tri s1 set_choose set_queue]. rewrite Et.
+        destruct HQ1 as [A B C D F]. rewrite Hq in *.
+        constructor; cbn [l_queue l_subs l_losses s1 set_choose set_queue].
+        - apply (sorted_app_inv rnd pre (loss, sp, u) q' A).
+        - intros sp0 H1 H2 H3. destruct (B sp0 H1) as [l0 [G1 G2]]; auto.
+          exists l0. split; auto. apply in_app_iff in G2 as [G2|[G2|G2]]; auto.
+          + apply Hpre in G2. cbn [valid_entry] in G2. unfold cur_simplices in G2. rewrite Et in G2.
+            apply smem_In in H1. rewrite H1, H3 in G2. discriminate.
+          + inversion G2; subst. exfalso. apply H2. left; auto.
+        - intros l0 sp0 Hin Hs. apply C; auto. apply in_app_iff. right. right. auto.
+        - intros l0 sp0 u0 v Hin Hv0. eapply D; eauto. apply in_app_iff. right. right. eauto.
+        - exact F. }
+      assert (HP2 : P s1) by exact HP1.
+      assert (Hstep : l_err (tellp E s1 p (Some sp)) = None -> QS X1 (tellp E s1 p (Some sp))).
+      { intros He. apply tellp_QS; auto. }
+      destruct u as [sub|]; cbn [fst].
+      + intros He _. apply Hstep. exact He.
+      + destruct (shas sp (l_subs (tellp E s1 p (Some sp)))) eqn:Esh.
+        * intros He _. specialize (Hstep He). unfold QS in *. destruct (l_tri (tellp E s1 p (Some sp))); auto.
+          eapply QI_drop; eauto.
+        * cbn [l_ok set_ok]. intros _ Hc. discriminate.
+    - unfold next_choice. destruct (l_choose (touch E s)) as [|p r].
+      { cbn [fst failed l_err set_err]. intros He. discriminate. }
+      set (s1 := set_choose (touch E s) r).
+      destruct (failed s1) eqn:Ef1.
+      { cbn [fst]. intros He. apply failed_err in He. congruence. }
+      assert (Het : l_err (touch E s) = None) by (apply failed_err in Ef1; exact Ef1).
+      destruct (T3 Het) as [_ HP1]. specialize (HP1 HP).
+      pose proof (touch_QS [] E s HQ Het) as HQ1.
+      cbn [fst]. intros He _. apply tellp_QS; auto.
+      eapply QS_ext; [| | | |exact HQ1]; reflexivity.
+  Qed.
+
+  Lemma askn_QS E : forall n s acc, QS [] s -> P s ->
+    l_err (fst (askn E n s acc)) = None -> l_ok (fst (askn E n s acc)) = true -> QS [] (fst (askn E n s acc)).
+  Proof.
+    induction n as [|n IH]; intros s acc HQ HP; cbn [ask_n]; [auto|].
+    pose proof (askone_QS E s HQ HP) as A. pose proof (askone_post E s) as (B1 & B2 & B3).
+    destruct (askone E s) as [s1 r]. cbn [fst] in *.
+    destruct r as [x|]; [|exact A].
+    destruct (failed s1) eqn:Ef; [exact A|].
+    intros He Hok. pose proof (askn_post E n s1 (x :: acc)) as (C1 & C2 & C3).
+    destruct (C3 He) as [He1 _]. specialize (C2 Hok).
+    apply IH; auto. destruct (B3 He1) as [_ HP1]. auto.
+  Qed.
+
+  (* (h) tell *)
+  Lemma sassoc_fold_sdel {A} del : forall (l : list (simplex * A)) k, ~ In k del ->
+    sassoc k (fold_left (fun a sp => sdel sp a) del l) = sassoc k l.
+  Proof.
+    induction del as [|x del IH]; intros l k Hk; cbn [fold_left]; auto.
+    rewrite IH; [|intros H; apply Hk; right; auto]. apply sassoc_sdel_other. intros ->. apply Hk. left; auto.
+  Qed.
+
+  Lemma tell_QS E s p : QS [] s -> P s -> e_inb E p = true -> hint_ok s E = true ->
+    l_err (tell E s p) = None -> QS [] (tell E s p).
+  Proof.
+    intros HQ HP Hi Hh. unfold LND.tell. destruct (nat_mem p (l_data s)) eqn:Em; [auto|].
+    set (s0 := set_pend s (nat_remove p (l_pend s))).
+    assert (HQ0 : QS [] s0) by (eapply QS_ext; [| | | |exact HQ]; reflexivity).
+    assert (HP0 : P s0) by exact HP.
+    pose proof (touch_data s0 E) as [D1 D2].
+    set (s1 := touch E s0) in *.
+    set (s2 := set_data s1 (l_data s1 ++ [p])).
+    rewrite Hi. cbn [negb].
+    set (s3 := if e_rescale E then recall E s2 else s2).
+    destruct (l_tri s1) as [t|] eqn:Et1.
+    - cbn [negb].
+      assert (H3 : l_err s3 = None -> l_err s1 = None /\ PG (l_data s1) s3 /\ QS [] s3 /\ l_tri s3 = Some t).
+      { intros He3. unfold s3 in *. destruct (e_rescale E).
+        - destruct (recall_spec (l_data s1) s2 E) as (_ & _ & _ & A4). cbv zeta in A4.
+          destruct (A4 He3) as (He2 & B4 & B5).
+          assert (HP1 : PG (l_data s1) s1).
+          { rewrite D1. unfold s1. apply touch_PG; [exact He2|intros _; reflexivity|exact HP0]. }
+          assert (HQ1 : QS [] s1) by (unfold s1; apply touch_QS; [exact HQ0|exact He2]).
+          split; [exact He2|]. split; [apply B4; [intros Hn; cbn in Hn; congruence|exact HP1]|].
+          split; [|apply B5; exact Et1].
+          apply (recall_QS [] E s2 (l_data s1)); auto.
+          + eapply QS_ext; [| | | |exact HQ1]; reflexivity.
+          + intros Hn. cbn in Hn. congruence.
+        - assert (HP1 : PG (l_data s1) s1).
+          { rewrite D1. unfold s1. apply touch_PG; [exact He3|intros _; reflexivity|exact HP0]. }
+          assert (HQ1 : QS [] s1) by (unfold s1; apply touch_QS; [exact HQ0|exact He3]).
+          split; [exact He3|]. split; [exact HP1|]. split; [|exact Et1].
+          eapply QS_ext; [| | | |exact HQ1]; reflexivity. }
+      destruct (l_tri s3) as [t3|] eqn:Et3.
+      2:{ intros He. destruct (H3 He) as (_ & _ & _ & Hc). discriminate. }
+      destruct (add_point d t3 p (e_hint E) (e_main E)) as [t' o] eqn:Eadd.
+      destruct o as [dl ad|why|]; [|destruct why; intros He; discriminate|intros He; discriminate].
+      intros He.
+      destruct (updl_spec E (set_tri s3 (Some t')) dl ad) as (U1 & _ & _ & _ & U5). cbv zeta in *.
+      destruct (U5 He) as [He3 _]. cbn [l_err set_tri] in He3.
+      destruct (H3 He3) as (He1 & HP3 & HQ3 & Ht3). assert (t3 = t) by congruence. subst t3.
+      unfold PG in HP3. rewrite Et3 in HP3. destruct HP3 as (I1 & I2 & I3).
+      unfold QS in HQ3. rewrite Et3 in HQ3. destruct HQ3 as [A B C D F].
+      assert (Hleg : Tri.legal_op t (AddPoint p (e_hint E) (e_main E)) = true).
+      { destruct (l_tri s) as [ts|] eqn:Ets.
+        - assert (ts = t) by (unfold s1 in Et1; rewrite (touch_tri_some s0 E ts Ets) in Et1; cbn in Et1; congruence).
+          subst ts. eapply hint_ok_legal; eauto.
+        - unfold hint_ok, cur_simplices in Hh. rewrite Ets in Hh. cbn [Tri.legal_op].
+          destruct (e_hint E) as [[|x sp]|]; try discriminate.
+          destruct (o_locate (e_main E)); [reflexivity|discriminate]. }
+      destruct (add_point_spec nat d t p (e_hint E) (e_main E) t' (Accepted dl ad) I1 Hleg Eadd) as (J1 & [Jd Ja] & J3 & J4).
+      assert (Hnv : nverts t' = S (nverts t)).
+      { unfold nverts. rewrite J3, app_length. cbn [length]. lia. }
+      assert (Hold : forall sp, In sp (simplices t') -> ~ In sp ad -> In sp (simplices t) /\ ~ In sp dl).
+      { intros sp H1 H2. assert (In sp (simplices t)).
+        { destruct (In_dec_s sp (simplices t)); auto. exfalso. apply H2. apply Ja. auto. }
+        split; auto. intros Hc. apply Jd in Hc. tauto. }
+      assert (Hnew : forall l0 sp u0, In (l0, sp, u0) (l_queue s3) -> ~ In sp ad).
+      { intros l0 sp u0 Hin Hc. apply J4 in Hc. pose proof (D _ _ _ _ Hin Hc). lia. }
+      unfold QS. rewrite U1. cbn [l_tri set_tri].
+      apply updl_QI; auto.
+      + intros sp H. apply Ja in H. tauto.
+      + rewrite app_nil_r. constructor; cbn [l_queue l_subs l_losses set_subs set_losses set_tri].
+        * exact A.
+        * intros sp H1 H2 Hsh. destruct (Hold sp H1 H2) as [G1 G2].
+          destruct (B sp G1) as [l0 [G3 G4]]; [intros []| |].
+          { unfold shas in *. rewrite sassoc_fold_sdel in Hsh; auto. }
+          exists l0. split; auto. rewrite sassoc_fold_sdel; auto.
+        * intros l0 sp Hin Hs. destruct (Hold sp Hs (Hnew _ _ _ Hin)) as [G1 G2].
+          rewrite sassoc_fold_sdel; auto.
+        * intros l0 sp u0 v Hin Hv. pose proof (D _ _ _ _ Hin Hv). lia.
+        * intros sp H. apply fold_sdel_keys_In in H as [H1 H2]. apply F in H1.
+          destruct (In_dec_s sp (simplices t')); auto. exfalso. apply H2. apply Jd. auto.
+      + intros sp H l0 u0 Hin. cbn [l_queue set_tri] in Hin. exact (Hnew _ _ _ Hin H).
+    - cbn [negb]. intros He.
+      assert (He2 : l_err s2 = None).
+      { unfold s3 in He. destruct (e_rescale E); auto.
+        destruct (recall_spec (l_data s2) s2 E) as (_ & _ & _ & A4). cbv zeta in A4. apply A4 in He. tauto. }
+      assert (HQ1 : QS [] s1) by (unfold s1; apply touch_QS; [exact HQ0|exact He2]).
+      assert (HQ2 : QS [] s2) by (eapply QS_ext; [| | | |exact HQ1]; reflexivity).
+      unfold s3 in *. destruct (e_rescale E); auto.
+      apply (recall_QS [] E s2 (l_data s2)); auto.
+      unfold PG. cbn [l_tri s2 set_data l_losses]. rewrite Et1.
+      assert (HP1 : PG (l_data s1) s1) by (rewrite D1; unfold s1; apply touch_PG; [exact He2|intros _; reflexivity|exact HP0]).
+      unfold PG in HP1. rewrite Et1 in HP1. exact HP1.
+  Qed.
+
+  (* (i) remove_unfinished of the repaired code *)
+  Lemma requeue_QI X s sp t : Inv t -> In sp (simplices t) -> QI X s t -> QI X (requeue rnd s sp) t.
+  Proof.
+    intros HI Hsp [A B C D F]. unfold requeue. destruct (sassoc sp (l_losses s)) as [loss|] eqn:El.
+    2:{ constructor; auto. }
+    constructor; cbn [l_queue l_subs l_losses set_queue]; auto.
+    - apply queue_add_sorted. exact A.
+    - intros sp0 H1 H2 H3. destruct (B sp0 H1 H2 H3) as [l0 [G1 G2]]. exists l0. split; auto. apply queue_add_In. auto.
+    - intros l0 sp0 Hin Hs. apply queue_add_In in Hin as [Hin|Hin]; [inversion Hin; subst; exact El|eauto].
+    - intros l0 sp0 u0 v Hin Hv. apply queue_add_In in Hin as [Hin|Hin]; [|eauto].
+      inversion Hin; subst. eapply (inv_range _ _ HI); eauto.
+  Qed.
+
+  Lemma fold_requeue_QI X t : Inv t -> forall l s, (forall sp, In sp l -> In sp (simplices t)) -> QI X s t ->
+    QI X (fold_left (requeue rnd) l s) t /\
+    (forall sp loss, In sp l -> sassoc sp (l_losses s) = Some loss -> In (loss, sp, None) (l_queue (fold_left (requeue rnd) l s))).
+  Proof.
+    intros HI. induction l as [|a l IH]; intros s Hl HQ; cbn [fold_left]; [split; [auto|intros sp loss []]|].
+    destruct (IH (requeue rnd s a)) as [G1 G2].
+    { intros sp H. apply Hl. right; auto. }
+    { apply requeue_QI; auto. apply Hl. left; auto. }
+    split; auto. intros sp loss [->|Hin] Hs.
+    - assert (Hin : In (loss, sp, None) (l_queue (requeue rnd s sp))).
+      { unfold requeue. rewrite Hs. cbn [l_queue set_queue]. apply queue_add_In. auto. }
+      clear - Hin. revert Hin. generalize (requeue rnd s sp). induction l as [|b l IHl]; intros s0 Hin; cbn [fold_left]; auto.
+      apply IHl. unfold requeue. destruct (sassoc b (l_losses s0)); auto. cbn [l_queue set_queue]. apply queue_add_In. auto.
+    - apply G2; auto. destruct (requeue_keeps s a) as (_ & K2 & _). rewrite K2. exact Hs.
+  Qed.
+
+  Hypothesis Hrep : repaired = true.
+
+  Lemma rmu_QS s : QS [] s -> P s -> QS [] (rmu s).
+  Proof.
+    intros HQ HP. unfold remove_unfinished. rewrite Hrep.
+    pose proof (fold_requeue_keeps (skeys (l_subs s)) s) as (K1 & K2 & _).
+    unfold QS in *. cbn [l_tri set_subs set_pend l_queue l_subs]. rewrite K1.
+    destruct (l_tri s) as [t|] eqn:Et.
+    - unfold P, PG in HP. rewrite Et in HP. destruct HP as (HI & Hk & _).
+      destruct (fold_requeue_QI [] t HI (skeys (l_subs s)) s (qi_q5 HQ) HQ) as [[A B C D F] G2].
+      constructor; cbn [l_queue l_subs l_losses set_subs set_pend]; auto.
+      + intros sp H1 H2 _. destruct (shas sp (l_subs s)) eqn:Es.
+        * assert (Hin : In sp (skeys (l_losses s))) by (apply Hk; auto).
+          apply sassoc_keys in Hin as [loss Hl]. exists loss. rewrite K2. split; auto.
+          apply G2; auto. apply shas_keys. exact Es.
+        * pose proof (fold_requeue_keeps (skeys (l_subs s)) s) as K.
+          assert (Hs' : shas sp (l_subs (fold_left (requeue rnd) (skeys (l_subs s)) s)) = false).
+          { assert (Hsub : forall l s0, l_subs (fold_left (requeue rnd) l s0) = l_subs s0).
+            { induction l as [|b l IHl]; intros s0; cbn [fold_left]; auto. rewrite IHl. unfold requeue.
+              destruct (sassoc b (l_losses s0)); reflexivity. }
+            rewrite Hsub. exact Es. }
+          apply B; auto.
+      + intros sp [].
+    - destruct HQ as [Hq Hs]. rewrite Hs. cbn [skeys map fold_left]. auto.
+  Qed.
+
+  (* ---------------- histories ---------------- *)
+  Definition J2 s : Prop := l_ok s = true -> P s /\ QS [] s.
+
+  Lemma QS_load X s E : QS X (load s E) <-> QS X s.
+  Proof. split; intros H; (eapply QS_ext; [| | | |exact H]; reflexivity). Qed.
+
+  Lemma finish_J2 s pts : (l_err s = None -> l_ok s = true -> P s /\ QS [] s) -> J2 (fst (finish s pts)).
+  Proof.
+    unfold finish, J2. destruct (l_err s) eqn:Ee; cbn [fst]; [cbn; discriminate|auto].
+  Qed.
+
+  Lemma step_J2 s (o : op) : J2 s -> legal_op s o = true -> J2 (fst (step s o)).
+  Proof.
+    intros HJ Hl. destruct o as [p E|p E|n E| |E]; cbn [LND.step].
+    - apply finish_J2. intros He Hok. destruct (tell_spec E (load s E) p) as (A1 & A2). cbv zeta in *.
+      apply legal_op_tell in Hl as [Hi Hh]. rewrite A1 in Hok. destruct (HJ Hok) as [HP HQ].
+      destruct (A2 He Hi Hh) as [_ HP']. split; [apply HP'; apply P_load; exact HP|].
+      apply tell_QS; auto. apply QS_load. exact HQ.
+    - apply finish_J2. intros He Hok. destruct (tellp_post E (load s E) p None) as (A1 & A2 & A3).
+      destruct (A3 He) as [_ HP']. apply A2 in Hok. destruct (HJ Hok) as [HP HQ].
+      split; [apply HP'; apply P_load; exact HP|]. apply tellp_QS; auto. apply QS_load. exact HQ.
+    - pose proof (askn_post E n (load s E) []) as (A1 & A2 & A3).
+      pose proof (askn_QS E n (load s E) []) as AQ.
+      destruct (askn E n (load s E) []) as [s' pts]. cbn [fst] in *.
+      apply finish_J2. intros He Hok. destruct (A3 He) as [_ HP']. destruct (HJ (A2 Hok)) as [HP HQ].
+      split; [apply HP'; apply P_load; exact HP|]. apply AQ; auto. apply QS_load. exact HQ.
+    - apply finish_J2. intros He Hok. destruct (rmu_keeps s) as (K1 & K2 & K3 & K4 & K5 & K6 & K7). cbv zeta in *.
+      rewrite K4 in Hok. destruct (HJ Hok) as [HP HQ]. split; [|apply rmu_QS; auto].
+      unfold P, PG. rewrite K1, K2, K3. exact HP.
+    - apply finish_J2. intros He Hok. destruct (touch_post (load s E) E) as (A1 & A2 & A3).
+      destruct (A3 He) as [_ HP']. destruct (HJ (A2 Hok)) as [HP HQ].
+      split; [apply HP'; apply P_load; exact HP|]. apply touch_QS; auto. apply QS_load. exact HQ.
+  Qed.
+
+  Lemma run_J2 : forall (h : list op) s, J2 s -> legal s h = true -> J2 (run s h).
+  Proof.
+    induction h as [|o h IH]; intros s HJ Hl; [exact HJ|].
+    cbn [LND.legal] in Hl. apply andb_true_iff in Hl as [H1 H2]. rewrite run_cons.
+    apply IH; auto. apply step_J2; auto.
+  Qed.
+
+  Lemma reach_J2 (h : list op) : legal (init_lnd L) h = true -> J2 (run (init_lnd L) h).
+  Proof.
+    intros Hl. apply run_J2; auto. intros _. split; [unfold P, PG; reflexivity|]. unfold QS. cbn. auto.
+  Qed.
+
+  Theorem queue_complete (h : list op) :
+    legal (init_lnd L) h = true ->
+    let s := run (init_lnd L) h in
+    l_ok s = true ->
+    qsorted (l_queue s) /\
+    (forall sp, In sp (cur_simplices s) -> shas sp (l_subs s) = false ->
+       exists loss, sassoc sp (l_losses s) = Some loss /\ In (loss, sp, None) (l_queue s)) /\
+    (forall loss sp, In (loss, sp, None) (l_queue s) -> In sp (cur_simplices s) ->
+       sassoc sp (l_losses s) = Some loss).
+  Proof.
+    intros Hl s Hok. destruct (reach_J2 h Hl Hok) as [_ HQ]. fold s in HQ. unfold QS, cur_simplices in *.
+    destruct (l_tri s) as [t|].
+    - destruct HQ as [A B C D F]. split; [exact A|]. split; [|exact C]. intros sp H1 H2. apply B; auto.
+    - destruct HQ as [Hq Hs]. rewrite Hq. split; [constructor|]. split; [intros sp []|intros loss sp []].
+  Qed.
+
+  Theorem next_point_in_worst_simplex (h : list op) :
+    legal (init_lnd L) h = true ->
+    let s := run (init_lnd L) h in
+    l_ok s = true -> l_subs s = [] ->
+    (cur_simplices s <> [] -> pop_highest s (l_queue s) <> None) /\
+    forall loss sp u q', pop_highest s (l_queue s) = Some ((loss, sp, u), q') ->
+      u = None /\ In sp (cur_simplices s) /\ sassoc sp (l_losses s) = Some loss /\
+      forall sp' loss', In sp' (cur_simplices s) -> sassoc sp' (l_losses s) = Some loss' ->
+        (rnd loss' <= rnd loss)%Z.
+  Proof.
+    intros Hl s Hok Hsubs. destruct (queue_complete h Hl Hok) as (A & B & C). fold s in A, B, C.
+    split.
+    - intros Hne Hpop. destruct (cur_simplices s) as [|sp0 rest] eqn:Ec; [congruence|].
+      destruct (B sp0) as [l0 [G1 G2]]; [left; auto|rewrite Hsubs; reflexivity|].
+      pose proof (pop_none s _ Hpop _ G2) as Hv. cbn [valid_entry] in Hv. rewrite Ec, Hsubs in Hv.
+      cbn [smem existsb shas sassoc negb] in Hv. rewrite simplex_eqb_refl in Hv. discriminate.
+    - intros loss sp u q' Hpop. destruct (pop_spec _ _ _ _ Hpop) as (pre & Hq & Hv & Hpre).
+      cbn [valid_entry] in Hv. rewrite Hsubs in Hv. destruct u as [sub|]; [cbn [sassoc] in Hv; discriminate|].
+      cbn [shas sassoc negb] in Hv. rewrite andb_true_r in Hv. apply smem_In in Hv.
+      assert (Hin : In (loss, sp, None) (l_queue s)) by (rewrite Hq; apply in_app_iff; right; left; auto).
+      split; auto. split; auto. split; [apply C; auto|].
+      intros sp' loss' Hs' Hl'. destruct (B sp' Hs') as [l0 [G1 G2]]; [rewrite Hsubs; reflexivity|].
+      assert (l0 = loss') by congruence. subst l0.
+      rewrite Hq in G2, A. apply in_app_iff in G2 as [G2|[G2|G2]].
+      + apply Hpre in G2. cbn [valid_entry] in G2. rewrite Hsubs in G2. cbn [shas sassoc negb] in G2.
+        rewrite andb_true_r in G2. apply smem_false in G2. contradiction.
+      + inversion G2; subst. lia.
+      + destruct (sorted_app_inv rnd pre (loss, sp, None) q' A) as [_ Hf]. rewrite Forall_forall in Hf.
+        apply Hf in G2. apply kle_rnd in G2. exact G2.
+  Qed.
 End LNDProofs.
